@@ -157,12 +157,24 @@ func c15WitnessBase(fs vfs.IFS) c15Base {
 	return b
 }
 
-type c15Sink struct{ chunks []pb.Chunk }
+// c15Sink QUEUES the chunks like the real transport job does (job.AddChunk puts
+// the pb.Chunk value on a channel, another goroutine marshals and sends it
+// later): they are put on the wire (c15Wire) only after the writer was closed,
+// so a writer that keeps using a buffer it handed over corrupts the stream here
+// as it does in the real transport.
+type c15Sink struct{ queue []pb.Chunk }
 
 func (s *c15Sink) Receive(c pb.Chunk) (bool, bool) {
 	c.DeploymentId = c15Did // job.streamSnapshot
-	s.chunks = append(s.chunks, c15Wire(c))
+	s.queue = append(s.queue, c)
 	return true, false
+}
+func (s *c15Sink) wire() []pb.Chunk {
+	var out []pb.Chunk
+	for _, c := range s.queue {
+		out = append(out, c15Wire(c))
+	}
+	return out
 }
 func (s *c15Sink) Close() error        { return nil }
 func (s *c15Sink) ShardID() uint64     { return c15Shard }
@@ -177,9 +189,9 @@ func c15StreamBase(name string, ct pb.CompressionType, payload int) c15Base {
 	_, err := cw.Write(c15Bytes(2, payload))
 	c15Must(err)
 	c15Must(cw.Close())
-	b := c15Base{name: name, files: map[string][]byte{}, mainName: server.GetSnapshotFilename(c15Index), streaming: true, chunks: sink.chunks}
+	b := c15Base{name: name, files: map[string][]byte{}, mainName: server.GetSnapshotFilename(c15Index), streaming: true, chunks: sink.wire()}
 	var all []byte
-	for _, c := range sink.chunks {
+	for _, c := range b.chunks {
 		all = append(all, c.Data...)
 	}
 	b.files[b.mainName] = all
@@ -214,6 +226,7 @@ type c15Ev struct {
 	BadDid  bool   `json:"baddid,omitempty"`
 	BadVer  bool   `json:"badver,omitempty"`
 	Flip    bool   `json:"flip,omitempty"`
+	FlipAt  int    `json:"flipat,omitempty"` // 1 = last byte of the chunk, 2 = 12th byte from its end (tail total / last block of the last main-file chunk)
 	Trunc   int    `json:"trunc,omitempty"` // 1 = to half, 2 = to 16 bytes
 	HdrBad  bool   `json:"hdrbad,omitempty"`
 	Path    string `json:"path,omitempty"` // hostile file name
@@ -231,7 +244,7 @@ func (e c15Ev) key() string {
 			f |= 1 << uint(i)
 		}
 	}
-	return fmt.Sprintf("c%d.%d.%d.%d.%d.%d.%x.%d.%s;", e.S, e.I, e.From, e.Index, e.Replica, e.Shard, f, e.Trunc, e.Path)
+	return fmt.Sprintf("c%d.%d.%d.%d.%d.%d.%x.%d.%d.%s;", e.S, e.I, e.From, e.Index, e.Replica, e.Shard, f, e.FlipAt, e.Trunc, e.Path)
 }
 
 func c15Key(evs []c15Ev) string {
@@ -271,6 +284,12 @@ func (e c15Ev) String() string {
 	if e.Flip {
 		s += "[byte-flipped]"
 	}
+	if e.FlipAt == 1 {
+		s += "[last-byte-flipped]"
+	}
+	if e.FlipAt == 2 {
+		s += "[byte-12-from-end-flipped]"
+	}
 	if e.Trunc == 1 {
 		s += "[cut-to-half]"
 	}
@@ -297,7 +316,7 @@ func c15Describe(evs []c15Ev) string {
 }
 
 // dataModified: the payload bytes or the file name differ from the source.
-func (e c15Ev) dataModified() bool { return e.Flip || e.Trunc != 0 || e.HdrBad }
+func (e c15Ev) dataModified() bool { return e.Flip || e.FlipAt != 0 || e.Trunc != 0 || e.HdrBad }
 
 // c15Chunk materialises the chunk of a chunk event.
 func c15Chunk(bases []c15Base, e c15Ev) pb.Chunk {
@@ -327,6 +346,19 @@ func c15Chunk(bases []c15Base, e c15Ev) pb.Chunk {
 			// first chunk of the main file: hit the payload, not the 1 KiB header
 			// (header corruption is C14's subject)
 			pos = int(rsm.HeaderSize) + (len(c.Data)-int(rsm.HeaderSize))/2
+		}
+		c.Data[pos] ^= 0x01
+	}
+	switch {
+	case e.FlipAt == 1 && len(c.Data) > 0:
+		c.Data[len(c.Data)-1] ^= 0x01
+	case e.FlipAt == 2 && len(c.Data) > 0:
+		pos := len(c.Data) - 12
+		if pos < 0 {
+			pos = 0
+		}
+		if c.ChunkId == 0 && !c.HasFileInfo && pos < int(rsm.HeaderSize) && len(c.Data) > int(rsm.HeaderSize) {
+			pos = int(rsm.HeaderSize) // never the header (C14), the first payload byte instead
 		}
 		c.Data[pos] ^= 0x01
 	}
@@ -875,7 +907,14 @@ func c15Perturb(bases []c15Base, evs []c15Ev, tShort, tLong int) [][]c15Ev {
 		mod(func(x *c15Ev) { x.BadVer = true })
 		base := bases[e.S].chunks[e.I]
 		if len(base.Data) > 0 && e.Trunc == 0 {
-			mod(func(x *c15Ev) { x.Flip = true })
+			// (at most one byte flip per chunk: two flips could cancel each other)
+			if e.FlipAt == 0 {
+				mod(func(x *c15Ev) { x.Flip = true })
+			}
+			if e.FlipAt == 0 && !e.Flip {
+				mod(func(x *c15Ev) { x.FlipAt = 1 })
+				mod(func(x *c15Ev) { x.FlipAt = 2 })
+			}
 			mod(func(x *c15Ev) { x.Trunc = 1 })
 			mod(func(x *c15Ev) { x.Trunc = 2 })
 		}
@@ -925,7 +964,7 @@ func c15Setup(t *testing.T) (*verifkit.Run, *verifkit.Result, []c15Base) {
 	res.Assumptions = []string{
 		"settings.SnapshotChunkSize (rsm block size, streaming chunk size, transport.snapshotChunkSize) scaled 2 MiB -> 2 KiB by a generated overlay of internal/settings/hard.go, so that snapshots have 1-5 chunks and 2-4 checksum blocks",
 		"receiver on a fresh strict MemFS per case; chunks reach Chunk.Add one at a time (the per-snapshot lock serialises concurrent Adds of one key in the real transport)",
-		"timeouts are the real soft settings (gc every 30 ticks, chunk timeout 900 ticks), tick perturbations are 30 (no expiry) and 930 ticks (expiry); after every case 930 more ticks are applied before the directories are inspected",
+		"timeouts are the real soft settings (gc every 30 ticks, chunk timeout 900 ticks), tick perturbations are 30 (no expiry) and 930 ticks (expiry), part pacing places 0..930 ticks between all consecutive chunks; after every case 930 more ticks are applied before the directories are inspected",
 		"a panic of the receiver on a malformed chunk (first chunk shorter than the header, manipulated file name) counts as rejected and ends the case; such outcomes are listed separately as rejected-by-panic classes",
 		"corruptions of the snapshot header itself are C14's subject; byte flips here hit payload bytes",
 	}
@@ -1111,6 +1150,111 @@ func TestVerifC15Concurrent(t *testing.T) {
 				if stop {
 					return
 				}
+			}
+		}
+	}
+}
+
+// TestVerifC15Pacing: placement of the clock ticks BETWEEN the chunks of a
+// healthy stream. Every base stream is delivered in order and complete with g_i
+// ticks between chunk i-1 and chunk i, for ALL assignments of the gaps from a
+// set built around the real gc interval G and chunk timeout T (read from the
+// package: gcIntervalTick, snapshotChunkTimeoutTick), and for several clock
+// phases (ticks before chunk 0). The collector measures IDLE time: a stream
+// whose every gap is < T must finalize however long the whole transfer takes
+// (sum of gaps >= T included); gaps >= T are judged by the reference model
+// (expiry at the first gc pass that finds the stream idle for >= T ticks).
+func TestVerifC15Pacing(t *testing.T) {
+	run, res, bases := c15Setup(t)
+	defer run.Finish(res)
+	T, G := int(snapshotChunkTimeoutTick), int(gcIntervalTick)
+	if G < 3 || T < 4*G {
+		t.Fatalf("harness error: gc interval %d / chunk timeout %d ticks: the gap set was designed for timeout >= 4 * interval", G, T)
+	}
+	gaps := []int{0, 1, G, T / 2, T - G, T - 1, T, T + G}
+	if run.Thorough() {
+		gaps = append(gaps, G-1, G+1, T/3, T-G-1, T+1, T+G-1)
+	}
+	phases := []int{0, 1, G - 1}
+	res.Rule = fmt.Sprintf("pacing: every base stream with >= 2 chunks delivered in order and complete, with g_i clock ticks between consecutive chunks for ALL assignments g in %v^(chunks-1) (gc interval %d, chunk timeout %d ticks, both read from the package) x clock phase (ticks before chunk 0) in %v; every stream whose gaps are all < timeout must finalize whatever the total (classes live-slow = total >= timeout, live-fast), streams with a gap >= timeout are judged by the model's idle-time collector; evaluation = one paced stream executed on a fresh real Chunk; distinct_nontrivial = distinct event lists with at least one tick between two chunks", gaps, G, T, phases)
+	if run.Replay != "" {
+		c15DoReplay(run, res, bases)
+		return
+	}
+	seen := verifkit.NewSet64()
+	for s, b := range bases {
+		n := len(b.chunks)
+		if n < 2 {
+			continue
+		}
+		idx := make([]int, n-1)
+		for {
+			for _, ph := range phases {
+				var evs []c15Ev
+				if ph > 0 {
+					evs = append(evs, c15Ev{K: "tick", N: ph})
+				}
+				total, maxgap := 0, 0
+				for i := 0; i < n; i++ {
+					if i > 0 {
+						g := gaps[idx[i-1]]
+						total += g
+						if g > maxgap {
+							maxgap = g
+						}
+						if g > 0 {
+							evs = append(evs, c15Ev{K: "tick", N: g})
+						}
+					}
+					evs = append(evs, c15Ev{K: "chunk", S: s, I: i})
+				}
+				h := verifkit.Hash64(c15Key(evs))
+				if !run.Mine(h) || !seen.Add(h) {
+					continue
+				}
+				if run.Expired() {
+					res.Cap("deadline")
+					return
+				}
+				o := c15Run(bases, evs)
+				res.Evaluations++
+				if total > 0 {
+					res.DistinctNontrivial++
+				}
+				cls := "stalled(a gap >= timeout)"
+				switch {
+				case maxgap < T && total >= T:
+					cls = "live-slow(every gap < timeout, total >= timeout)"
+				case maxgap < T:
+					cls = "live-fast(total < timeout)"
+				}
+				res.Outcome(cls + ":" + o.class)
+				if cls[0] == 'l' && total >= T && len(res.Samples) < 3 {
+					res.Sample(3, c15Describe(evs)+" => "+o.class)
+				}
+				stop := c15Report(res, bases, evs, o)
+				if maxgap < T && o.class != "finalized:1" {
+					// independent of the model: idle time never reached the timeout
+					if res.Violate("C15:not-finalized", fmt.Sprintf("[s%d=%s(%d chunks)] delivered: %s => a healthy in-order complete stream whose chunks are never more than %d ticks apart (timeout %d, total %d ticks) was not finalized: %s",
+						s, b.name, n, c15Describe(evs), maxgap, T, total, o.class), c15Replay{Events: evs}) {
+						stop = true
+					}
+				}
+				if stop {
+					return
+				}
+			}
+			// next gap assignment
+			i := 0
+			for ; i < len(idx); i++ {
+				idx[i]++
+				if idx[i] < len(gaps) {
+					break
+				}
+				idx[i] = 0
+			}
+			if i == len(idx) {
+				break
 			}
 		}
 	}
